@@ -4,6 +4,7 @@ package c17
 import (
 	"fmt"
 	"os"
+	"strings"
 	"time"
 
 	"github.com/cossacklabs/acra/keystore"
@@ -24,12 +25,14 @@ func Run(r *ev.Run) {
 		"(a') controlled executions over the REAL lock of the directory back end (flock + in-process mutex, nothing modelled): 1-2 reader and 1-2 ring-level writer goroutines SHARING one keystore handle plus a writer on a second handle of the same directory, every back-end call a scheduling point, a granted lock call that stays inside the call is a waiting thread — seeded random schedules (quick 30, thorough 200), three directed schedules per scenario (reader inside while the writer of the same handle performs the first 1/2/3 calls of its write cycle, then the other handle's writer), thorough: depth-first enumeration (capped) of one scenario; " +
 		"(a'') stale-view schedules at operation granularity, one goroutine executing the operations of three ring handles A, B, C on real keystore handles over a shared in-memory back end and over one directory (a DirectoryBackend with its flock per handle): B (and a bystander C) opens the ring — two keys, the key under test in each of the five live states — A updates (each valid state change of that key, its destruction, the current marker, a new key, the other key, an overwriting import; in some orders two updates), B updates on its stale view with each locally valid update (the several-transaction DestroyKey on the key A touched always; a seeded sample of the other combinations in the quick tier; orders: stale by one update, by two, opened between A's updates, control), B updates again; after EVERY operation the complete view (state, validity, formats, public/private/symmetric key bytes or the exact error class, current marker) is read through every open ring handle — first through the one that has just operated or been refused — and through a fresh reader; in ALL workloads every ring-level update, acknowledged or refused, is followed at once by such a complete read through its ring handle; " +
 		"(b) free-running -race stress: 6 readers + 2 writers sharing one handle with 2 writers sharing a second handle (in-memory and directory),  8-32 goroutines with separate handles on one in-memory backend and on one directory backend (flock), 3 OS processes × 2 goroutines on one directory, one handle shared by 8-32 reader goroutines while another handle rotates keys; (c) v1: one filesystem keystore handle shared by 8-32 goroutines calling 12 read-only getters over 4-6 clients with cache sizes {1,2,unbounded,off}. " +
+		"(r) Redis back ends on an in-process stand-in server (rig/fakeredis), every handle with its OWN connection pool as separate processes have: v2 over backend.RedisBackend with one RootDir — controlled executions at back-end-call granularity parked through ksrig.Sched with the REAL lock key (a lock attempt that finds the key is answered at once instead of spinning and the thread waits until the key is deleted or expires): seeded random 2 writers + 1 reader × 3-4 operations (quick 60, thorough 600), every fifth with one lock SET applied but its connection dropped (then, with every handle waiting, the virtual clock passes the TTL), and directed lock-expiry schedules (quick 12, thorough 48: a writer paused 0-3 calls into its write cycle while the clock advances 11 s, a second writer commits, in a quarter a third one enters after the first one's Unlock removed the second one's key) whose findings carry the prefix 'redis lock-expired: '; free-running -race stress of 6-12 goroutines with own handles, plain and with one leaked lock key (a watchdog advances the virtual clock only there); v1 over filesystem.RedisStorage: 4 handles (cache 1/2/unbounded/off) × 3-6 reader goroutines against sequential reference values while 2 further handles generate and rotate keys of fresh clients, which a fresh handle must afterwards return exactly, newest first. " +
 		"Every v2 history is recorded at the API boundary with one logical clock and judged per key ring by porcupine against the sequential key-ring model plus the final-state oracle; every v1 result is compared with the value read sequentially beforehand. " +
 		"A refused update must leave no trace: the view through the refused handle is its previous view or the ring as the store holds it at a point inside the call (part of the linearizability check), and a view read again without an operation of its handle has not changed. " +
 		"evaluations = controlled executions + stale-view executions + stress actions + v1 getter calls. distinct_nontrivial = distinct interleaving signatures (sequence of (thread, backend op)) of controlled executions in which the threads really interleaved (at least as many context switches as threads), plus one class per (back end, ring kind, state of the key, A's update, B's update, order, outcome of B's update) of a clean stale-view execution, per clean stress configuration and per (v1 getter, cache size) that returned a verified-correct key"
 	r.Assumptions = []string{
 		"crypto library replaced by the pure-Go gothemis stand-in (Secure Cell Seal / EC keys contract)",
-		"fully controlled (modelled-lock) schedules cover the in-memory backend only; the directory backend is driven under schedules controlled at back-end call granularity as far as its real lock is deterministic (a thread inside a granted lock call for 6 ms counts as waiting; wall clock is used for that only, never by an oracle) and by free-running stress; several processes by free-running stress; Redis backends not covered",
+		"fully controlled (modelled-lock) schedules cover the in-memory backend only; the directory backend is driven under schedules controlled at back-end call granularity as far as its real lock is deterministic (a thread inside a granted lock call for 6 ms counts as waiting; wall clock is used for that only, never by an oracle) and by free-running stress; several processes by free-running stress",
+		"Redis: the server is the in-process stand-in rig/fakeredis (atomic, totally ordered commands; key expiry on a virtual clock), everything above the TCP connection is Acra's code and go-redis v7; in controlled Redis schedules a `SET .. NX` on the lock key that would find the key is answered with an error by the stand-in's hook so that RedisBackend.Lock returns instead of busy-waiting up to 10 s of wall clock — the retry loop is the harness's, the decision (key present or not) is the server's; a lost update after the lock key EXPIRED under a paused holder is judged a violation (a process paused for more than 10 s is a schedule) and reported under 'redis lock-expired: ', everything without clock advancement under a held lock is judged strictly; v1 over Redis: concurrent rotation of the SAME key through two handles is not driven (v1 has no lock on any storage)",
 		"interleavings are explored at backend-call granularity with one thread running at a time (sequentially consistent executions); weak-memory effects are left to the race detector in the free-running workloads",
 		"imports are driven with one-ring containers; an import is modelled as composite (make the ring exist, then replace its content), an overwrite-policy import may replace anything, an abort-if-exists import must find the ring still pristine when it writes",
 		"v1 reference values are read through a cache-less handle before the concurrent phase; no writer runs during the v1 phase (the property's v1 clause is about read-only connection traffic)",
@@ -37,7 +40,11 @@ func Run(r *ev.Run) {
 	th := r.Thorough()
 	w := newSchedWorld()
 	phases := map[string]float64{}
+	only := os.Getenv("VERIF_C17_PHASES") // development aid: run only the phases whose name contains this (the non-vacuity guards then fail the run)
 	phase := func(name string, f func()) {
+		if only != "" && !strings.Contains(name, only) {
+			return
+		}
 		t0 := time.Now()
 		f()
 		phases[name] = time.Since(t0).Seconds() // reporting only
@@ -87,6 +94,13 @@ func Run(r *ev.Run) {
 		v2SharedHandleWriters(r, "dir", dirFactory(ksrig.ScratchDir("c17-shared-w")), 6, 2, 2, r.Pick(15, 30))
 	})
 
+	// (r) Redis layer: one RedisBackend (own connection pool) per handle on one fakeredis server
+	phase("redis controlled random", func() { w.redisSchedules(r, r.Pick(60, 600), 4) })
+	phase("redis lock expiry", func() { w.redisLockExpiry(r, r.Pick(12, 48)) })
+	phase("redis stress", func() { redisStress(r, r.Pick(8, 16), r.Pick(10, 12), hot, false) })
+	phase("redis stress leaked lock", func() { redisStress(r, r.Pick(6, 8), r.Pick(6, 10), hot, true) })
+	phase("redis v1 handles", func() { redisV1(r, r.Pick(3, 5), r.Pick(3, 6), r.Pick(60, 150), 2, r.Pick(4, 8)) })
+
 	// (c) v1 readers
 	phase("v1 readers", func() {
 		vw := newV1World(r, r.Pick(4, 6))
@@ -107,6 +121,14 @@ func Run(r *ev.Run) {
 		"dirsched_executions", "dirsched_directed_executions", "dirsched_executions_interleaved", "dirsched_lock_calls_seen_waiting", "v1_getter_results_correct", "v1_held_keys_still_intact"} {
 		r.RequireAtLeast(c, 1)
 	}
+	// Redis layer
+	for _, c := range []string{"redis_sched_executions", "redis_sched_executions_interleaved", "redis_sched_lock_attempts_found_key", "redis_sched_executions_with_lock_expiry",
+		"redis_sched_lock_sets_dropped_after_apply", "redis_sched_clock_advances_all_waiting", "redis_stress_actions", "redis_leak_stress_actions",
+		"redis_lock_sets_dropped_after_apply", "redis_lock_attempts_behind_leaked_key", "redis_watchdog_clock_advances", "v2_failed_by_injected_lock_fault",
+		"redis_v1_getter_results_correct", "redis_v1_held_keys_still_intact", "redis_v1_generated_clients_reflected_exactly"} {
+		r.RequireAtLeast(c, 1)
+	}
+	r.RequireSetAtLeast("redis_v1_getter_x_cache", 40)
 	r.RequireSetAtLeast("v1_getter_x_cache", 40)
 	r.RequireSetAtLeast("v2_views_after_refused", 3) // complete views right after a refused DestroyKey, SetState, SetCurrent (and AddKey)
 	r.RequireSetAtLeast("stale_view_outcomes", 4)    // B's stale update acknowledged / refused on its own view / refused after the pull, per ring kind
